@@ -71,6 +71,8 @@ def block2 (tii ti1i1 t0 t1 : α) : (α × α) × (α × α) :=
   let t1 := t1 / maxval
   let p0 := p / maxval
   let z := maxval * Sc.sqrt (Sc.abs (p0 * p0 + t0 * t1))
+  -- an unsplit 2x2 block must stay flagged as a complex pair: `if (!(z > 0)) z = maxval * epsilon()`
+  let z := if Sc.gt z zero then z else maxval * Sc.eps
   ((ti1i1 + p, z), (ti1i1 + p, -z))
 
 /-- `while (i < m_n)` eigenvalue extraction, as the list of emitted values from position `i` on -/
@@ -219,6 +221,8 @@ structure Decomp (α : Type) where
 /-- `UpperHessenbergEigen::compute(mat)` -/
 def compute (n : Nat) (h : Mat α) : Res (Decomp α) :=
   let scale := TridiagEigen.maxAbs1 h.d
+  -- zero matrix: eigenvalues zero, eigenvectors the identity (`m_eivalues.setZero(m_n); m_eivec.setIdentity(m_n, m_n)`)
+  if Sc.eq scale zero then Res.ok ⟨n, Array.replicate n (zero, zero), Mat.identity n⟩ else
   match HessSchur.compute n ⟨h.rows, h.cols, vdivs h.d scale⟩ with
   | Res.throw e => Res.throw e
   | Res.ok s =>
